@@ -550,7 +550,12 @@ def _compute_sfs(
     if h is None:
         h = 0.5
     xx = dadi.Numerics.default_grid(pts)
-    phi = dadi.PhiManip.phi_1D(xx, theta0=theta, gamma=gamma, h=h, deme_ids=[root_deme])
+    # Size of the root deme relative to the reference size (differs from 1 if
+    # the user specified Ne).
+    root_nu = nu_funcs[0][0]
+    if callable(root_nu):
+        root_nu = root_nu(0)
+    phi = dadi.PhiManip.phi_1D(xx, nu=root_nu, theta0=theta, gamma=gamma, h=h, deme_ids=[root_deme])
     
     # for each set of demographic events and integration epochs, step through
     # integration, apply events, and then reorder populations to align with demes
